@@ -1194,6 +1194,16 @@ def stream_ids(ctx, ncases):
 # ---------------------------------------------------------------------------------------------
 
 
+
+def pregen(ctx):
+    """regenerate coq/Generated/MathSrc.v from the CURRENT tools/math.py (fail-closed translator); Proofs/MathGen.v
+    proves the regenerated wrapped_difference equal to the model's, so a changed formula breaks a proof obligation"""
+    import os, sys
+    sys.path.insert(0, os.path.join(C.VERIF, "harness"))
+    import translate_pointwise as TP
+    TP.generate_math(C.REPO, C.COQ)
+
+
 def run(ctx):
     stream_wdiff(ctx, ctx.n(80, 3000))
     stream_penc(ctx, ctx.n(300, 12000))
